@@ -1,4 +1,5 @@
 import PilotaModel.Lemmas.AsyncGen
+import PilotaModel.Lemmas.AsyncGenConv
 import PilotaModel.Lemmas.AsyncBinRV
 import PilotaModel.Lemmas.AsyncCmpSkip
 import PilotaModel.Lemmas.MsgSim
@@ -232,10 +233,8 @@ theorem emitted_async_chunk_independent (e : Endian) (d : Doc) (n : String) (s s
 
 /-- **emitted async = emitted in-memory on success, no over-read**: if the emitted `decode` of item `n` returns `v` from
 `bs` leaving `rest`, the emitted `decode_async` returns `v` for every delivery schedule of `bs` and pulls exactly the
-bytes the in-memory decoder consumed.  (`hb`: a Rust slice; the converse — an error whenever the in-memory decoder
-reports one — is proved for the runtime readers above (`async_err_if_sync_err`) and only checked by T1 for emitted
-types: `emitted_async_err_if_sync_err` is not proved.) -/
-theorem emitted_async_eq_sync_ok_partial (e : Endian) (d : Doc) (n : String) (bs : Bytes) (hb : bs.length < 2 ^ 63) (v : TVal) (rest : Bytes)
+bytes the in-memory decoder consumed.  (`hb`: a Rust slice.  The converse is `emitted_async_ok_only_if_sync_ok`.) -/
+theorem emitted_async_eq_sync_ok (e : Endian) (d : Doc) (n : String) (bs : Bytes) (hb : bs.length < 2 ^ 63) (v : TVal) (rest : Bytes)
     (h : decode (binRd e (some skipDepth)) d n bs = .ok (v, rest)) (s : Stream) (hs : flat s = bs) :
     adecode e d n s = .ok (v, bs.length - rest.length) := by
   simp only [adecode, pulled_flat, hs]
@@ -245,6 +244,45 @@ theorem emitted_async_eq_sync_ok_partial (e : Endian) (d : Doc) (n : String) (bs
   have := (adec_sim e d (3 * bs.length + 3) (3 * bs.length + 8)).1 (.ref n) bs v rest hb (Nat.le_refl _) h
   rw [this]
   rfl
+
+/-- **emitted async succeeds only where emitted in-memory succeeds**: whatever the emitted `decode_async` returns from a
+stream, the emitted `decode` returns from the stream's bytes, with exactly the pulled bytes consumed.  (Every decoded value
+occupies at least one byte, so a container count the async decoder got through passes the in-memory readers' size check;
+`askip_conv` is the same fact for the skippers.) -/
+theorem emitted_async_ok_only_if_sync_ok (e : Endian) (d : Doc) (n : String) (s : Stream) (hb : (flat s).length < 2 ^ 63)
+    (v : TVal) (k : Nat) (h : adecode e d n s = .ok (v, k)) :
+    ∃ rest, decode (binRd e (some skipDepth)) d n (flat s) = .ok (v, rest) ∧ k = (flat s).length - rest.length := by
+  simp only [adecode, pulled_flat] at h
+  cases hr : runF (adecTy e d (3 * (flat s).length + 3) (3 * (flat s).length + 8) (.ref n)) (flat s) with
+  | ok q =>
+    obtain ⟨v', r⟩ := q
+    rw [hr] at h
+    simp only [pulledF, Out.ok.injEq, Prod.mk.injEq] at h
+    obtain ⟨rfl, rfl⟩ := h
+    have := ((adec_conv e d _ _).1 (.ref n) (flat s) v' r hb hr).2
+    exact ⟨r, by unfold decode; exact this, rfl⟩
+  | err x => rw [hr] at h; cases h
+  | panic m => rw [hr] at h; cases h
+  | fuel => rw [hr] at h; cases h
+
+/-- **an error whenever the in-memory decoder reports one** (generated types, binary / LE): if the emitted `decode`
+fails on the bytes, the emitted `decode_async` returns no value for any delivery schedule of them. -/
+theorem emitted_async_err_if_sync_err (e : Endian) (d : Doc) (n : String) (s : Stream) (hb : (flat s).length < 2 ^ 63)
+    (x : ErrKind) (h : decode (binRd e (some skipDepth)) d n (flat s) = .err x) :
+    ∀ v k, adecode e d n s ≠ .ok (v, k) := by
+  intro v k hk
+  obtain ⟨rest, h1, _⟩ := emitted_async_ok_only_if_sync_ok e d n s hb v k hk
+  rw [h] at h1; cases h1
+
+/-- the two directions together: the emitted async decoder returns `v` having pulled `k` bytes exactly when the emitted
+in-memory decoder returns `v` having consumed `k` bytes. -/
+theorem emitted_async_eq_sync (e : Endian) (d : Doc) (n : String) (s : Stream) (hb : (flat s).length < 2 ^ 63) (v : TVal) (k : Nat) :
+    adecode e d n s = .ok (v, k) ↔
+      ∃ rest, decode (binRd e (some skipDepth)) d n (flat s) = .ok (v, rest) ∧ k = (flat s).length - rest.length := by
+  constructor
+  · exact emitted_async_ok_only_if_sync_ok e d n s hb v k
+  · rintro ⟨rest, h1, rfl⟩
+    exact emitted_async_eq_sync_ok e d n (flat s) hb v rest h1 s rfl
 
 end Emitted
 end Pilota.Props.C12
